@@ -209,6 +209,8 @@ def generate(run_seed, mode='seq'):
     p_retire = rng.choice([0.0, 0.02, 0.1])
     dtype_mode = rng.choice([None, None, None, 'f64', 'f32', 'i64', 'i32', 'pyint', 'arr0d',
                              'longdouble', 'f16'])
+    p_relim = rng.choice([0.0, 0.0, 0.3, 0.7])      # table size re-assigned through the public setter
+    relim_sizes = [rng.randint(3, 12) for _ in range(2)]
     tasks = []
     if mode == 'seq' and rng.random() < 0.04:
         # one or two LONG EpsAlg histories (105..125 terms, one time in four 126..200 = the upper end
@@ -248,6 +250,8 @@ def generate(run_seed, mode='seq'):
                   'cls': cls}
             if cls == 'Dea':
                 op['limexp'] = lim
+                if rng.random() < p_relim:
+                    op['limexp0'] = rng.choice(relim_sizes + [p[1] for p in pool])
             ops.append(op)
             ops.extend({'op': 'feed', 'i': op['i']} for _ in terms)
             if rng.random() < 0.5:
@@ -279,6 +283,11 @@ def generate(run_seed, mode='seq'):
             else:
                 op['cls'] = 'Dea'
                 op['limexp'] = rng.randint(3, 9) if small_tables else rng.randint(3, 60)
+                if rng.random() < p_relim:
+                    # built with another size, then set to `limexp` through the public setter before
+                    # the first term: must behave like Dea(limexp) (the lone reference does the same)
+                    op['limexp0'] = rng.choice(relim_sizes) if rng.random() < 0.7 else \
+                        (rng.randint(3, 9) if small_tables else rng.randint(3, 60))
             ops.append(op)
             live[name] = [0, n]
 
@@ -363,10 +372,13 @@ class _Exec(object):
             sched.yield_point(tid, 'O')
             k = op['op']
             if k == 'spawn':
-                if op['cls'] == 'EpsAlg':
-                    self.inst[op['i']] = (self.ext.EpsAlg(), op)
-                else:
-                    self.inst[op['i']] = (self.ext.Dea(limexp=op['limexp']), op)
+                try:
+                    self.inst[op['i']] = (build_instance(self.ext, op['cls'], op.get('limexp'),
+                                                         op.get('limexp0')), op)
+                except Exception as e:  # noqa: BLE001 - a constructor that raises is an observation
+                    self.obs.append({'task': tid, 'idx': idx, 'i': op['i'], 'k': -1, 'rec': _rec(e),
+                                     'faulted': False, 'spawn_exc': True})
+                    continue
                 self.pos[op['i']] = 0
             elif k == 'retire':
                 self.inst.pop(op['i'], None)
@@ -413,6 +425,16 @@ class _Exec(object):
         return {'obs': self.obs, 'sched': self.sched.summary(), 'faults': self.faults}
 
 
+def build_instance(ext, cls, limexp, limexp0=None):
+    if cls == 'EpsAlg':
+        return ext.EpsAlg()
+    if limexp0 is None:
+        return ext.Dea(limexp=limexp)
+    obj = ext.Dea(limexp=limexp0)
+    obj.limexp = limexp
+    return obj
+
+
 def execute(plan, sched_spec=None):
     import os
     try:
@@ -441,8 +463,8 @@ def eval_ref(request):
     import_library()
     import numpy as np
     from numdifftools import extrapolation as ext
-    cls, limexp, terms, use_np = request
-    obj = ext.EpsAlg() if cls == 'EpsAlg' else ext.Dea(limexp=limexp)
+    cls, limexp, terms, use_np = request[:4]
+    obj = build_instance(ext, cls, limexp, request[4] if len(request) > 4 else None)
     out = []
     for t in terms:
         try:
@@ -676,7 +698,11 @@ def judge(plan, result, refs):
         stats['max_instances_in_one_process'] = plan['many_instances']
     by_inst = {}
     order = []
+    spawn_failed = []
     for ob in result['obs']:
+        if ob.get('spawn_exc'):
+            spawn_failed.append(ob)
+            continue
         by_inst.setdefault(ob['i'], []).append(ob)
         order.append(ob['i'])
     spawn = {}
@@ -694,6 +720,18 @@ def judge(plan, result, refs):
     stats['instances_interleaved'] = len(interleaved)
     violations = []
     shapes = set()
+    for ob in spawn_failed:
+        # limexp >= 3 always: a lone instance is constructed without an exception (the reference
+        # request below constructs it), so a constructor that raises depends on other instances
+        sp = spawn[ob['i']]
+        ref_req = [sp['cls'], sp.get('limexp'), [], sp.get('np')] + \
+            ([sp['limexp0']] if sp.get('limexp0') else [])
+        refs.get(ref_req)
+        violations.append({'property': ID, 'kind': 'constructor_raises', 'cls': sp['cls'],
+                           'task': ob['task'], 'idx': ob['idx'], 'instance': ob['i'],
+                           'diff': 'constructor', 'detail': {'kind': 'constructor_raises', 'k': 0,
+                                                              'rec': ob['rec']},
+                           'reference_request': ref_req, 'observed': None, 'reference': None})
     for name, obs in by_inst.items():
         sp = spawn[name]
         stats['instances'] += 1
@@ -719,7 +757,9 @@ def judge(plan, result, refs):
         limexp = sp.get('limexp')
         if limexp:
             stats['limexp_seen'].add(limexp)
-        ref_req = [cls, limexp, terms, sp.get('np')]
+        ref_req = [cls, limexp, terms, sp.get('np')] + ([sp['limexp0']] if sp.get('limexp0') else [])
+        if sp.get('limexp0'):
+            stats['dea_instances_resized_before_use'] = stats.get('dea_instances_resized_before_use', 0) + 1
         ref_recs, extra = refs.get(ref_req)
         if stats['compared'] == 0 and nfed <= 60:
             stats['refsample'] = [ref_req]
